@@ -87,6 +87,9 @@ def run(ctx):
     _models_sorted(ctx)
     # thread completion order must not reach a result (shared with C05b)
     _parallel_sites(ctx)
+    # ... and the worker count must not reach anything but the pool size
+    from .c05 import worker_count_only_forwarded
+    worker_count_only_forwarded(ctx, "C08b-worker-count-only-forwarded")
 
 
 # ------------------------------------------------------------------ a
